@@ -176,3 +176,21 @@ def returned_under(g, atom_eval: Callable[[ast.expr], Optional[bool]],
     if isinstance(st, ast.Return) and g.kind[n] == 'stmt':
       arms(st.value if st.value is not None else ast.Constant(value=None))
   return out
+
+
+def through_locals(f, ev, depth: int = 3):
+  """An atom evaluator that also decides a test written as a local holding
+  the tested expression (`is_x = <test>; if is_x:`)."""
+  from fdlstatic import roles  # pylint: disable=g-import-not-at-top
+
+  def ev2(t, d=depth):
+    v = ev(t)
+    if v is not None:
+      return v
+    if isinstance(t, ast.Name) and d > 0:
+      e = roles.deref(f, t, 1)
+      if e is not t:
+        return eval_atoms(e, lambda x: ev2(x, d - 1))
+    return None
+
+  return ev2
